@@ -29,10 +29,11 @@ def _run(args):
     sys.setrecursionlimit(20000)
     try:
         r = K2.run_k2(_FACTS, ctx, inv)
-    except Broken as e:
+    except (Broken, KeyError, IndexError, AttributeError, TypeError, ValueError, AssertionError, RecursionError) as e:
+        # an internal error of the interpreter on this context is an analysis limit, reported as such (never a crash of the check)
         out = Res()
         out.ctx = ctx
-        out.diverged = "E2 broken: %s" % e
+        out.diverged = "E2 broken: %s%s" % ("" if isinstance(e, Broken) else "internal %s: " % type(e).__name__, e)
         out.obligations = []
         out.warnings = [("broken", str(e), ctx.get("label"))]
         out.stores = []
